@@ -4,7 +4,7 @@ import time
 import traceback
 import z3
 from . import sym
-from .sym import Path, Ctx, Infeasible, StopPath, Unsupported
+from .sym import Path, Ctx, Infeasible, StopPath, Unsupported, BudgetExhausted
 from .interp import Interp, RaiseEx, ReturnEx
 from .oblig import Store, discharge, extract_model, dyadic_constraints, flat_terms
 import random
@@ -31,17 +31,21 @@ def list_harnesses(module):
     return m.env.get('HARNESSES')
 
 
-def explore(it, module, fn, config, store, max_paths=20000, path_timeout_ms=10000):
+def explore(it, module, fn, config, store, max_paths=20000, path_timeout_ms=10000, budget_s=None):
     m = it.load(module)
     f = m.env.get(fn)
     work = [[]]
     npaths = 0
     stats = dict(paths=0, infeasible=0, cut=0, raised=0, unsupported=[])
+    it.deadline = time.time() + budget_s if budget_s else None
     while work:
         dec = work.pop()
         npaths += 1
         if npaths > max_paths:
             stats['unsupported'].append(f'path limit {max_paths} exceeded')
+            break
+        if it.deadline is not None and time.time() > it.deadline:
+            stats['unsupported'].append(f'exploration budget of {budget_s} s used up after {npaths - 1} paths')
             break
         p = Path(dec, timeout_ms=path_timeout_ms)
         Ctx.path = p
@@ -66,8 +70,12 @@ def explore(it, module, fn, config, store, max_paths=20000, path_timeout_ms=1000
             store.final_pcs.append(list(p.pc))
         except Unsupported as e:
             stats['unsupported'].append(str(e))
+        except BudgetExhausted:
+            stats['unsupported'].append(f'exploration budget of {budget_s} s used up after {npaths - 1} paths')
+            break
         work.extend(p.alts)
     Ctx.path = None
+    it.deadline = None
     return stats
 
 
@@ -81,7 +89,7 @@ def run_job(job):
         store.final_pcs = []
         Store.current = store
         stats = explore(it, job['module'], job['fn'], job.get('config', {}), store,
-                        max_paths=job.get('max_paths', 20000))
+                        max_paths=job.get('max_paths', 20000), budget_s=job.get('budget', 300))
         res['stats'] = stats
         res['touched'] = {f'{k[0]}::{k[1]}': v for k, v in it.touched.items()}
         res['covers'] = sorted(getattr(store, 'covers', set()))
@@ -98,8 +106,14 @@ def run_job(job):
                 break
         res['canary'] = can
         res['cc_inputs'] = sample_inputs(store, job.get('crosscheck', 0), job.get('seed', 0)) if job.get('crosscheck') else []
+        # every obligation gets the full solver portfolio until the discharge budget of the configuration is used up; what is left
+        # after that is reported undecided (never a verdict)
+        t_end = time.time() + 2 * job.get('budget', 300)
         for ob in store.obls:
-            discharge(ob, store.inputs, timeout_s=job.get('timeout', 30), ufuns=store.ufuns)
+            if time.time() > t_end:
+                ob.status, ob.backend, ob.note = 'unknown', 'none', 'discharge budget of the configuration used up'
+            else:
+                discharge(ob, store.inputs, timeout_s=job.get('timeout', 30), ufuns=store.ufuns)
             res['obligations'].append(dict(name=ob.name, kind=ob.kind, status=ob.status, backend=ob.backend,
                                            time=round(ob.time, 4), model=ob.model, note=ob.note, meta=ob.meta,
                                            size=len(ob.pc)))
